@@ -62,7 +62,9 @@ def h_fn(name):
         if spec is None:
             ctx.check('C04.%s.wrong_arity_is_expression_error[%d]' % (name, n), False, 'property')
             return
-        ctx.check('C04.%s.meaning[%d args]' % (name, n), same(r, spec(desc, args)), 'property')
+        # the solver's counterexample (description and arguments) is handed to the replay oracle, which calls the real function on it
+        ctx.check('C04.%s.meaning[%d args]' % (name, n), same(r, spec(desc, args)), 'property',
+                  witness=dict([('description', desc)] + [('arg%d' % i, a) for i, a in enumerate(args)]), meta={'replay': 'string_function', 'fn': name, 'arity': n})
         ctx.cover('%s.returns[%d]' % (name, n))
     return h
 
